@@ -172,9 +172,9 @@ def check(ctx):
     cmp_attrs = set()
     if feq:
         for n in own_nodes(feq.node):
-            if isinstance(n, ast.Compare) and isinstance(n.left, ast.Attribute) and isinstance(n.left.value, ast.Name) \
-                    and n.left.value.id == "self" and isinstance(n.comparators[0], ast.Attribute) \
-                    and n.comparators[0].attr == n.left.attr:
+            if isinstance(n, ast.Compare) and isinstance(n.left, ast.Attribute) and isinstance(n.comparators[0], ast.Attribute) \
+                    and n.comparators[0].attr == n.left.attr and isinstance(n.left.value, ast.Name) \
+                    and isinstance(n.comparators[0].value, ast.Name) and "self" in (n.left.value.id, n.comparators[0].value.id):
                 cmp_attrs.add(n.left.attr)
     ctx.ob("R16.6", "CompositeParameter.__eq__ compares {left, right, operator}", cmp_attrs == {"left", "right", "operator"},
            detail=sorted(cmp_attrs), where=feq.fq if feq else C.fq, construct="__eq__", loc=loc(feq, feq.node) if feq else "",
